@@ -296,23 +296,26 @@ func c07Apply(c *deps.Code, m *c07Model, op c07Op, lens map[uint64]uint64) (stri
 }
 
 // newC07SysSyn builds a single-block code from synthetic instructions.
-func newC07SysSyn(seq []int) (*c07Sys, error) {
+func newC07SysSyn(seq []int) (*c07Sys, error) { return newC07SysSynAt(seq, 0x1000) }
+
+// newC07SysSynAt: the same with the block beginning at base (0 is a legal address).
+func newC07SysSynAt(seq []int, base uint64) (*c07Sys, error) {
 	al := synAlphabet()
 	var pins []parser.Instruction
 	// synthetic instructions have different byte lengths (2, 4 or 6 by alphabet index):
 	// address bookkeeping of moves must not rely on a uniform length
-	addr := uint64(0x1000)
+	addr := base
 	for _, k := range seq {
 		n := []int{4, 2, 6}[k%3]
 		pins = append(pins, parser.Instruction{Type: al[k].Typ, Addr: model.Addr(addr), Bytes: make([]byte, n), Effects: al[k].Effs, Details: synDetails{al[k].Name}})
 		addr += uint64(n)
 	}
-	s := &c07Sys{syn: append([]int{}, seq...), entry: 0x1000, ins: pins, lens: map[uint64]uint64{},
-		segs: []prog.Seg{{Base: 0x1000, Words: make([]uint32, (addr-0x1000+3)/4)}}}
+	s := &c07Sys{syn: append([]int{}, seq...), entry: base, ins: pins, lens: map[uint64]uint64{},
+		segs: []prog.Seg{{Base: base, Words: make([]uint32, (addr-base+3)/4)}}}
 	for _, in := range pins {
 		s.lens[uint64(in.Addr)] = uint64(len(in.Bytes))
 	}
-	if _, err := prog.Code(0x1000, pins); err != nil {
+	if _, err := prog.Code(base, pins); err != nil {
 		return nil, err
 	}
 	return s, nil
@@ -320,7 +323,7 @@ func newC07SysSyn(seq []int) (*c07Sys, error) {
 
 func sysOfCase(c c07Case) (*c07Sys, error) {
 	if len(c.Syn) > 0 {
-		return newC07SysSyn(c.Syn)
+		return newC07SysSynAt(c.Syn, c.Entry)
 	}
 	return newC07Sys(c.Segs, c.Entry)
 }
@@ -617,7 +620,22 @@ func c07Codes(r *eng.Run) []*c07Sys {
 				if s, err := newC07SysSyn(seq); err == nil {
 					out = append(out, s)
 				}
+				// the same block beginning at address 0 (pairs, and a third of the triples)
+				if k < 0 || (i+j+k)%3 == 1 {
+					if s, err := newC07SysSynAt(seq, 0); err == nil {
+						out = append(out, s)
+					}
+				}
 			}
+		}
+	}
+	// real instructions in a block beginning at address 0
+	for _, ws := range [][]uint32{
+		{prog.Addi(1, 0, 1), prog.Addi(2, 0, 2), prog.Addi(3, 0, 3), prog.Addi(4, 0, 4)},
+		{prog.Addi(1, 0, 1), prog.Add(2, 1, 0), prog.Addi(3, 0, 7), prog.Sd(1, 2, 0), prog.Jal(0, 8)},
+	} {
+		if s, err := newC07Sys([]prog.Seg{{Base: 0, Words: ws}}, 0); err == nil {
+			out = append(out, s)
 		}
 	}
 	// multi-block codes: branches/jumps creating 2..3 blocks of different sizes, gaps, entry in the middle
